@@ -223,9 +223,10 @@ def bounded_runs(tier, seed):
                         for prob in [S.levels[0].prob for S in cP.MS]:
                             prob.init = tuple([*prob.init[:2]] + [np.dtype('complex128')])
                         u0 = cP.MS[0].levels[0].prob.u_exact(0)
-                        uP, _ = cP.run(u0=u0, t0=0.0, Tend=n * dt * 2)
+                        t0 = 0.0 if (n + M) % 2 else 0.35  # the start time is not always zero
+                        uP, _ = cP.run(u0=u0, t0=t0, Tend=t0 + n * dt * 2)
                         cS = controller_nonMPI(num_procs=1, controller_params=dict(logger_level=40, dump_setup=False), description=dS)
-                        uS, _ = cS.run(u0=cS.MS[0].levels[0].prob.u_exact(0), t0=0.0, Tend=n * dt * 2)
+                        uS, _ = cS.run(u0=cS.MS[0].levels[0].prob.u_exact(0), t0=t0, Tend=t0 + n * dt * 2)
                         err = float(np.max(np.abs(np.asarray(uP) - np.asarray(uS))))
                         obs.append(_ob(f'{tag}:converged_ParaDiag_equals_sequential_collocation', err < 1e-7, dict(err=err), backend='native-run', counted=False))
                     except Exception as e:
@@ -316,6 +317,64 @@ class ApplyMatrix(Contract):
             yield 'canary:unchanged', veq((st.c.MS[0].levels[0].residual if st.inst['quantity'] == 'residual' else st.c.MS[0].levels[0].increment)[0], st.old[0][0]) if st.inst['entries'] == 'tiny' else False
 
 
+class EvalFAtAllNodes(Contract):
+    """QDiagonalization.eval_f_at_all_nodes (feeds the all-at-once residual): f[m] := F(u[m], t + dt*c_m) for EVERY node m = 1..M
+    (the node times matter for non-autonomous right-hand sides); u and f[0] untouched"""
+
+    prop = 'C15'
+    name = 'QDiagonalization.eval_f_at_all_nodes'
+    target = ('pySDC/implementations/sweeper_classes/ParaDiagSweepers.py', 'QDiagonalization.eval_f_at_all_nodes')
+    label = 'instance-proved'
+    native = True
+
+    def instances(self, tier):
+        return [dict(n=1, M=M) for M in ((1, 2, 3) if tier == 'quick' else (1, 2, 3, 4))]
+
+    def build(self, inst, mk):
+        M = inst['M']
+        c = make_paradiag_controller(mk, 1, M)
+        L = c.MS[0].levels[0]
+        L.params.dt = mk.real('dt')
+        L.status.time = mk.real('time')
+        L.sweep.coll.nodes = mk.vector('c', M)
+        for m in range(M + 1):
+            L.u[m] = mk.vec(f'u{m}')
+            L.f[m] = mk.vec(f'f_old{m}', 'f')
+        st = State(L=L, M=M, us=[type(u)(u) for u in L.u], f0=type(L.f[0])(L.f[0]), call=L.sweep.eval_f_at_all_nodes)
+        return st
+
+    def post(self, st, old, result, exc):
+        L, M, P = st.L, st.M, st.L.prob
+        yield 'returns_normally', exc is None
+        if exc is not None:
+            return
+        for m in range(1, M + 1):
+            er = P.find_eval(L.f[m]) if hasattr(P, 'find_eval') else None
+            if er is not None:
+                yield f'f{m}:rhs_of_node_value_at_node_time', bool(veq(er.u, st.us[m])) is True and bool(seq(er.t, L.time + L.dt * L.sweep.coll.nodes[m - 1])) is True
+            else:
+                yield f'f{m}:rhs_of_node_value_at_node_time', veq(L.f[m], P.eval_f(st.us[m], L.time + L.dt * L.sweep.coll.nodes[m - 1]))
+        yield 'node_values_and_f0_untouched', bool(veq(L.f[0], st.f0)) is True and all(bool(veq(L.u[m], st.us[m])) is True for m in range(M + 1))
+
+    def canary(self, st, old, result, exc):
+        yield 'canary:f1_unchanged', veq(st.L.f[1], st.L.f[0])
+
+
+def _run_contracts():
+    # block scheduling of the ParaDiag run (start time, seeding of blocks): the C06 loop-cut contracts of controller_ParaDiag_nonMPI.run
+    from contracts.C06_paradiag import RunEntryPD, RunBodyPD, RunExitPD
+
+    def post_without_the_C06_only_clause(self, st, old, result, exc):
+        # "no accepted step starts at or beyond Tend" is a clause of C06 (and a recorded finding there), not of C15
+        for nm, c in RunBodyPD.post(self, st, old, result, exc):
+            if not nm.startswith('accepted_step_started_before_Tend'):
+                yield nm, c
+
+    out = [type(b.__name__ + '_C15', (b,), dict(prop='C15')) for b in (RunEntryPD, RunExitPD)]
+    out.append(type('RunBodyPD_C15', (RunBodyPD,), dict(prop='C15', post=post_without_the_C06_only_clause)))
+    return out
+
+
 def check_transform_roundtrip_and_set_G_inv(tier, seed):
     """(a) FFT_in_time followed by iFFT_in_time is the identity on the step data for every n_steps 1..16 and alpha over ten decades
     (real controller, real mesh data); (b) history clause: after set_G_inv(G_new) on an EXISTING sweeper the stored
@@ -364,5 +423,5 @@ def check_transform_roundtrip_and_set_G_inv(tier, seed):
                  'n_steps 1..16 (quick: 1,2,4,8,16) x alpha over ten decades; 3 successive set_G_inv calls, M = 2, 3')
 
 
-CONTRACTS = [ApplyMatrix]
+CONTRACTS = [ApplyMatrix, EvalFAtAllNodes] + _run_contracts()
 EXTRAS = [check_helpers, check_sweeper_symbolic, check_iteration_order, bounded_runs, check_transform_roundtrip_and_set_G_inv]
